@@ -275,4 +275,4 @@ def base_specs():
     return out
 
 
-RICH = [["c"], ["u"], ["q"], ["s"], ["S"], ["c", "c"], ["c", "q"], ["s", "c"], ["u", "c"], ["q", "q"], ["S", "s"], ["c", "u", "c"], ["q", "c", "s"]]
+RICH = [["s", "c", "c"], ["S", "c", "c"], ["q", "c", "c"], ["s", "s", "c"], ["c"], ["u"], ["q"], ["s"], ["S"], ["c", "c"], ["c", "q"], ["s", "c"], ["u", "c"], ["q", "q"], ["S", "s"], ["c", "u", "c"], ["q", "c", "s"]]
